@@ -219,3 +219,53 @@ def run(R: vlib.Run):
         shutil.rmtree(d, ignore_errors=True)
 
 
+
+
+def scale(R: vlib.Run):
+    """at-scale search: single reads of more than 2**16 / 2**22 / 2**24 items across file boundaries, large offsets, long histories"""
+    nprng = np.random.default_rng(R.seed + 202)
+    d = os.path.join(vlib.SCRATCH, f"c02s_{os.getpid()}")
+    os.makedirs(d, exist_ok=True)
+    try:
+        for isz, sizes in ((1, (5_000_000, 21_000_000, 3_000_000)), (4, (2_000_001 * 4, 4_500_000 * 4, 70_000 * 4)), (2, (70_000 * 2, 0, 140_000 * 2))):
+            nbits = {1: 8, 2: 16, 4: 32}[isz]
+            paths, hdrs, datas = [], [], []
+            for i, n in enumerate(sizes):
+                hdr = bytes([0xE0 + i] * (3 + i))
+                data = (nprng.integers(0, 224, n, dtype=np.uint8)).tobytes()
+                p = os.path.join(d, f"big{i}.bin")
+                with open(p, "wb") as f:
+                    f.write(hdr + data)
+                paths.append(p); hdrs.append(hdr); datas.append(data)
+            flat = b"".join(datas)
+            tot = len(flat) // isz
+            b0, b1 = sizes[0] // isz, (sizes[0] + sizes[1]) // isz
+            hist = [[("SeekSet", 0), ("Cread", tot)],
+                    [("SeekSet", isz * 7), ("Cread", b0 + 5), ("Cread", (1 << 22) + 3), ("Creadinto", isz * 1000), ("SeekCur", -isz * 65537), ("Cread", 65537)],
+                    [("SeekSet", isz * (b0 - 1)), ("Creadinto", isz * ((1 << 24) // isz + 11)), ("Cread", 1)],
+                    [("SeekSet", isz * 100), ("Creadinto", isz * (tot + 5))],
+                    [("SeekSet", isz * (b1 - 70000)), ("Cread", 70001), ("SeekCur", -isz * 3), ("Cread", 3), ("Cread", tot)],
+                    [("SeekSet", isz * (b0 - 5))] + [("Cread", 1 + (k % 3)) for k in range(3000)]]
+            for ops in hist:
+                R.tick({"file_sizes": list(sizes), "isz": isz, "ops": ops[:12]})
+                R.case(("scale", isz, tuple(ops[:6])), regime="scale")
+                fr = open_reader(paths, hdrs, datas, nbits)
+                fr.seek(0, 0)
+                res = impl_run(fr, ops); fr.close()
+                p = 0
+                for k, ((op, arg), (kind, got, pos)) in enumerate(zip(ops, res)):
+                    ek, eb, ep = spec_step(flat, isz, p, op, arg)
+                    if kind != ek or (ek == 1 and got != eb) or (ep is not None and pos != ep):
+                        first = next((i for i in range(min(len(got), len(eb))) if got[i] != eb[i]), min(len(got), len(eb))) if ek == 1 and kind == 1 else None
+                        R.fail("scale-stream", f"at-scale history: step {k} {op}({arg}) from position {p}: kind {kind} (expected {ek}), "
+                               f"{len(got)} bytes (expected {len(eb)}), first differing byte {first}, position {pos} (expected {ep})",
+                               {"file_sizes": list(sizes), "isz": isz, "ops": ops[:k + 1] if k < 20 else ops[:6] + ["..."] + ops[k - 3:k + 1],
+                                "data": f"numpy.random.default_rng({R.seed + 202}) stream, see props/c02.py scale()"})
+                        break
+                    if ep is None:
+                        break
+                    p = ep
+            for pth in paths:
+                os.remove(pth)
+    finally:
+        shutil.rmtree(d, ignore_errors=True)
